@@ -278,6 +278,98 @@ def resolve_count(c):
     c.replay("code", code=REPLAY_TAGCOUNT)
 
 
+# ---- the tag's render methods (sync and async): the form is chosen with the count that
+# ---- resolve_count computed from the tag's arguments, the text formatted is the text gettext
+# ---- chose, and it is formatted with the arguments in scope
+
+for _sfx in ("", "_async"):
+    def _mkrender(sfx):
+        @contract(TAG + ":TranslateNode.render_to_output" + sfx, prop="C26", name=f"translate-tag.render_to_output{sfx}[count -> resolve_count -> gettext -> _format_message -> output]")
+        def tr(c):
+            EXP = "liquid.expression:Expression"
+            env = mk_env(c)
+            c.requires(c.st.deref(env).fields["context_depth_limit"].t >= 8, "context depth limit not reached")
+            ctx = mk_ctx(c, env)
+            cv = c.any("count_argument_value")
+            kw = c.obj("liquid.builtin.expressions.arguments:KeywordArgument", "count_arg", name=const("count"), value=c.obj(EXP, "count_expr", __value__=cv, token=NONE), token=NONE)
+            args = c.st.alloc(HDict(items={"count": kw}))
+            sb = c.obj(TAG + ":MessageBlock", "singular", text=c.str("singular_text"))
+            pb = c.obj(TAG + ":MessageBlock", "plural", text=c.str("plural_text"))
+            self = c.obj(TAG + ":TranslateNode", "node", args=args, singular_block=sb, plural_block=pb, token=NONE)
+            tr_obj = c.obj("gettext:NullTranslations", "translations")
+            evx = lambda eng, st, a, k: [(st, st.deref(a[0]).fields["__value__"])]  # noqa: E731
+            c.summary(EXP + ".evaluate", evx)
+            c.summary(EXP + ".evaluate_async", evx)
+            c.summary(TAG + ":TranslateNode.resolve_translations", lambda eng, st, a, k: [(st, tr_obj)])
+            counted = z3.Int("resolved_count")
+            chosen = z3.String("chosen_text")
+            formatted = z3.String("formatted_text")
+
+            def rc(eng, st, a, k):
+                ns = a[2] if len(a) > 2 else k.get("block_scope")
+                h = st.deref(ns) if isinstance(ns, VRef) else None
+                ok = isinstance(h, HDict) and h.items is not None and h.items.get("count") == cv
+                st.log.append(("resolve_count", ok))
+                return [(st, VInt(counted))]
+            c.summary(TAG + ":TranslateNode.resolve_count", rc)
+            c.summary(TAG + ":TranslateNode.resolve_message_context", lambda eng, st, a, k: [(st, NONE)])
+
+            def gt(eng, st, a, k):
+                cnt = k.get("count", a[2] if len(a) > 2 else None)
+                st.log.append(("gettext", a[1] == tr_obj, cnt))
+                return [(st, VStr(chosen))]
+            c.summary(TAG + ":TranslateNode.gettext", gt)
+
+            def fm(eng, st, a, k):
+                scope = st.deref(st.deref(st.deref(a[1]).fields["scope"]).fields["_maps"]).items if a[1] == ctx else None
+                inner = st.deref(scope[0]) if scope else None
+                st.log.append(("format", a[2], isinstance(inner, HDict) and inner.items is not None and inner.items.get("count") == cv))
+                return [(st, VStr(formatted))]
+            c.summary(TAG + ":TranslateNode._format_message", fm)
+            buf = c.obj("io:StringIO", "buffer", __text__=c.str("out"))
+            out0 = c.st.deref(buf).fields["__text__"].t
+            c.call(ctx, buf, self_val=self)
+
+            def post(r):
+                log = r.st.log
+                rcs = [e for e in log if e[0] == "resolve_count"]
+                gts = [e for e in log if e[0] == "gettext"]
+                fms = [e for e in log if e[0] == "format"]
+                if len(rcs) != 1 or len(gts) != 1 or len(fms) != 1 or not rcs[0][1] or not gts[0][1] or not fms[0][2]:
+                    return z3.BoolVal(False)
+                cnt = gts[0][2]
+                cnt_ok = isinstance(cnt, VInt) and z3.eq(cnt.t, counted)
+                txt = fms[0][1]
+                txt_ok = isinstance(txt, VStr) and z3.eq(txt.t, chosen)
+                if not (cnt_ok and txt_ok):
+                    return z3.BoolVal(False)
+                return r.st.deref(buf).fields["__text__"].t == z3.Concat(out0, formatted)
+            c.ensures("the-count-given-to-gettext-is-resolve_counts-and-its-text-is-what-is-formatted(with-the-arguments-in-scope)-and-written", post)
+            c.raises()
+            c.assume_note("resolve_count, gettext and _format_message are summarised by fresh values here; their own contracts are the obligations above")
+            c.replay("code", code=REPLAY_TAGCOUNT_ASYNC)
+    _mkrender(_sfx)
+
+
+REPLAY_TAGCOUNT_ASYNC = r'''
+def run(m):
+    import asyncio
+    from liquid import Environment
+    env = Environment(extra=True)
+    t = env.from_string("{% translate count: n %}{{ count }} item{% plural %}{{ count }} items{% endtranslate %}")
+    bad = []
+    for n, want in ((0, "0 items"), (1, "1 item"), (2, "2 items"), ("1", "1 item"), (1.5, "1.5 item"), ("x", "x item"), (None, " item")):
+        for a in (False, True):
+            try:
+                got = asyncio.run(t.render_async(n=n)) if a else t.render(n=n)
+            except Exception as e:
+                got = type(e).__name__
+            if got != want:
+                bad.append((n, a, got, want))
+    return {"violated": bool(bad), "observed": bad[:4], "witness": "plural-choice-differs-from-the-resolved-count"}
+'''
+
+
 REPLAY_TAGCOUNT = r'''
 def run(m):
     from liquid import Environment
